@@ -10,13 +10,25 @@ import (
 	"os"
 	"time"
 
+	cdc "github.com/craterdog/go-collection-framework/v4/cdcn"
+	col "github.com/craterdog/go-collection-framework/v4/collection"
 	"verif/harness/world"
 )
 
 func runners() map[string]world.Runner {
 	var ptr = world.NewInterp(world.PtrCodec(), world.IntCodec())
 	ptr.NoSort = true
+	var inner = cdc.Notation().Make()
+	var sets = world.SetCodec(
+		func(a, b int) any { return col.Set[int](inner).MakeFromArray([]int{a, b}) },
+		func(v any) []int {
+			if s, ok := v.(col.SetLike[int]); ok {
+				return s.AsArray()
+			}
+			return nil
+		})
 	return map[string]world.Runner{
+		"set":     world.NewInterp(world.IntCodec(), sets),
 		"int":     world.NewInterp(world.IntCodec(), world.IntCodec()),
 		"string":  world.NewInterp(world.StringCodec(), world.StringCodec()),
 		"float64": world.NewInterp(world.FloatCodec(), world.FloatCodec()),
